@@ -1,9 +1,13 @@
 #!/usr/bin/env python3
-"""Round 5 ('e' ids): copies confirmed seeded changes from /tmp/r5-eval/<id>/ + <id>.json
+"""Rounds 5 and 6 ('e' and 'f' ids): copies confirmed seeded changes from /tmp/r5-eval/<id>/ + <id>.json
 (written by tools/seed_eval.py) into /verif/seeded/<id>/, same layout as collect_seeds.py."""
 import json, os, glob, shutil
 V = os.path.dirname(os.path.dirname(os.path.abspath(__file__)))
 NEEDS = {
+ "C05f-1": "v1.1.5binary and a length field of exactly 128 (single-byte fast path uses <= 0x80), reloaded from the store",
+ "C13f-1": "a persisted tree of height >= 1 whose root holds exactly one key with one nil child link, loaded from its root, then Delete of that key: shrink reuses the persisted child as the root, the tree reports itself clean although a key was deleted",
+ "C15f-1": "both versions loaded through Persist handles with different NodeURLPrefix over the same nodes (replica): equal links are only skipped when the prefixes match, every common subtree is descended",
+ "C19f-1": "a top node with exactly one key and a changed Root.BranchFactor (the layer check skips the first key of the top node)",
  "C17e-1": "a short or failed write (full disk, quota, RLIMIT_FSIZE) with the process surviving and the following fsync+close succeeding: `err = tmp.Sync()` overwrites the Write error, the truncated temp file is renamed into place",
  "C17e-2": "a real process death between creating <name>.tmp (O_EXCL) and the rename, then a re-store after restart: 'temp exists' is taken for a concurrent writer and Store reports success without writing",
  "C06e-1": "a KeyCompare / Key.Order returning un-normalised values (a-b) and an old key more than 1 below the pending new key: `switch cmp {case -1 ... default}` in diffOne's merge step",
@@ -21,7 +25,7 @@ NEEDS = {
  "C09e-1": "a tree reloaded from its root (no cache), an earlier insert that left the root dirty in memory, then an Insert into that root above a child that is only in the store, with a Load fault during the child split: the node is modified before the fallible split",
  "C09e-2": "a Delete that brings the size down to the shrink threshold on a reloaded tree, with a Load fault on a sibling needed only by the shrink: the size is committed after the shrink loop, so it is never decremented although the entry is gone",
 }
-for f in sorted([x for x in glob.glob("/tmp/r5-eval/C??e-?.json")]):
+for f in sorted(glob.glob("/tmp/r5-eval/C??e-?.json") + glob.glob("/tmp/r5-eval/C??f-?.json")):
     sid = os.path.basename(f)[:-5]
     r = json.load(open(f))
     ok = all(r.get(k) for k in ("applies", "builds", "suite_passes_with_change", "demo_fails_with_change", "demo_passes_without_change"))
@@ -37,7 +41,7 @@ for f in sorted([x for x in glob.glob("/tmp/r5-eval/C??e-?.json")]):
     caught = sorted(k for k, v in ch.items() if v["exit"] == 1); missed = sorted(k for k, v in ch.items() if v["exit"] == 0)
     incon = sorted(k for k, v in ch.items() if v["exit"] not in (0, 1))
     meta = {"id": sid, "breaks_property": sid[:3], "needs_to_manifest": NEEDS.get(sid) or notes,
-            "author": "fresh sub-agent given only the property text and its own scratch worktree of /repo (round 5)",
+            "author": "fresh sub-agent given only the property text and its own scratch worktree of /repo (round 5/6)",
             "confirmed_by_me": {"patch_applies_to": "/repo HEAD at evaluation time", "library_builds": True, "repo_suite_passes_with_change": True,
                                 "demonstration_fails_with_change": True, "demonstration_passes_without_change": True,
                                 "how": "tools/seed_eval.py on a scratch worktree (git apply; go test -vet=off -count=1 ./...; demo placed per its package clause; go test -run <its tests>)"},
